@@ -348,6 +348,9 @@ struct Ctx<'a> {
     /// this program uses the string column: then no arithmetic and only =/!= comparisons
     /// (arithmetic or ordering on strings is unspecified)
     strings: bool,
+    /// an atom (filtered scan with a constant) that is planted into several rules so that subplan
+    /// sharing finds a common subexpression
+    shared: Option<(u32, Vec<Term>)>,
     arity: std::collections::BTreeMap<u32, usize>,
 }
 
@@ -388,6 +391,18 @@ impl<'a> Ctx<'a> {
         if let Some(m) = must_use {
             let k = self.r.below(rels.len() as u64) as usize;
             rels[k] = m;
+        }
+        if let Some((srel, sargs)) = self.shared.clone() {
+            if self.r.chance(3, 5) {
+                for t in &sargs {
+                    if let Term::Var(v) = t {
+                        if !bound.contains(v) {
+                            bound.push(*v);
+                        }
+                    }
+                }
+                body.push(Lit::Pos(srel, sargs));
+            }
         }
         for rel in rels {
             let a = self.atom(rel, &mut bound, true);
@@ -478,7 +493,18 @@ pub fn gen_program(r: &mut Rng, cfg: &GenCfg) -> (Program, Vec<&'static str>) {
     if strings {
         tags.push("strings");
     }
-    let mut cx = Ctx { r, cfg, strings, arity };
+    let shared = if r.chance(1, 3) {
+        tags.push("shared-subplan");
+        let c = r.range(0, 2);
+        Some(match r.below(3) {
+            0 => (0u32, vec![Term::Var(0), Term::Int(c)]),
+            1 => (1u32, vec![Term::Int(c), Term::Var(0)]),
+            _ => (0u32, vec![Term::Var(0), Term::Var(1)]),
+        })
+    } else {
+        None
+    };
+    let mut cx = Ctx { r, cfg, strings, shared, arity };
     let mut clauses = vec![];
     for (i, &h) in heads.iter().enumerate() {
         let lower: Vec<u32> = heads[..i].to_vec();
@@ -522,6 +548,15 @@ pub fn gen_program(r: &mut Rng, cfg: &GenCfg) -> (Program, Vec<&'static str>) {
     let last = *heads.last().unwrap();
     let q = cx.clause(99, &pos, &neg, Some(last), true);
     clauses.push(q);
+    if cx.r.chance(1, 2) {
+        // rule order is irrelevant to the meaning: exercise orders where a rule precedes what it depends on
+        let n = clauses.len() - 1;
+        let mut head_part = clauses[..n].to_vec();
+        cx.r.shuffle(&mut head_part);
+        head_part.push(clauses[n].clone());
+        clauses = head_part;
+        tags.push("shuffled-rules");
+    }
     let p = Program { clauses };
     if p.has_neg() {
         tags.push("negation");
